@@ -14,7 +14,9 @@ RULE = ('Direct calls of the long-only sizer on a real broker: 1-6 assets from a
         'weights mixed/sparse/all-zero/near-zero-sum/small-integer/single; prices log-U(0.01,1e5) plus {0.01,0.5,'
         '1,1.5}; equity log-U(1,1e10) plus small values, held as cash or as cash plus marked positions; buffer '
         '{0,1,0.05,default}|U(0,1); fee zero/default/percentage with c+t<=1; invalid inputs (negative weight, '
-        'buffer <0 or >1, NaN price) must raise ValueError. Oracle in exact rationals: q is a non-negative int, '
+        'buffer <0 or >1, NaN price; negative weights down to -1e-12) must raise ValueError; the same sizer instance '
+        'serves 1-3 successive weight vectors; a third of the sizers are built by QuantTradingSystem as a session '
+        'does. Oracle in exact rationals: q is a non-negative int, '
         'q*p + fee <= alloc < (q+1)*p + fee with alloc=(1-b)*E*w/sum(w) (1e-12 relative slack), sum(q*p) <= '
         '(1-b)*E, keys preserved, all-zero -> all-zero. Plus an exhaustive small grid. Non-trivial = >=2 '
         'positive weights, fee>0 or buffer>0, and some alloc/p with fractional part >= 0.5 (floor != round), '
